@@ -143,6 +143,18 @@ CHECKS = {
         note="Schedule part drives _getInstance on a transport-less daemon shell; history part uses the synchronous in-memory transport (multiplex event handler).",
         design_ref="DESIGN.md section 3 C09",
     ),
+    "C10": dict(
+        engine="S+N+T",
+        technique="explicit-state BFS over stream histories with a virtual clock against a list model, plus stateless model checking of the stream table under concurrent fetch/close/disconnect/housekeeping",
+        text="BFS (deduplicated by model state and server-side pull counters) over histories of next/close/release/reconnect/ping/housekeeping/clock-advance steps to depth "
+             "4 (quick) / 5 (thorough) on one or two streams from one or two proxies, four stream kinds, ITER_STREAM_LIFETIME {0,5} x ITER_STREAM_LINGER {0,30} and "
+             "streaming disabled, on the real Proxy/_StreamResultIterator/Daemon code with a virtual clock: every item, StopIteration, re-raised generator exception or "
+             "'terminated' error and the size of the server's stream table after every step must match the model. Separately every schedule (line granularity, "
+             "preemption bound 2-3) of fetch, second fetch, close, disconnect and housekeeping racing on one table must end without internal error in a state some "
+             "serial order produces.",
+        note="Expiry is judged at housekeeping passes (the mechanism the property anchors); schedule part runs on a transport-less daemon shell.",
+        design_ref="DESIGN.md section 3 C10",
+    ),
 }
 
 NOT_YET = {}
